@@ -449,9 +449,12 @@ def _questions(chart):
             qs.append(lambda inst=inst, diff=diff: chart.notes_per_second(inst, diff, timedelta(0), timedelta(seconds=2)))
             qs.append(lambda tr=tr: str(tr.last_note_end_timestamp))
             qs.append(lambda tr=tr: tr.header_tag)
+            qs.append(lambda tr=tr: hash(tr) * 0)  # tracks as set members / dict keys (a TypeError, consistently, is an answer too)
             qs.append(lambda tr=tr: [(n.end_tick, n.longest_sustain, str(n.end_timestamp)) for n in list(tr.note_events)[:6]])
     qs.append(lambda: chart.notes_per_second(I.KEYS, D.EASY))
     qs = qs[:160]
+    for o_ in (chart, chart.sync_track, chart.sync_track.bpm_events, chart.global_events_track, chart.metadata):
+        qs.append(lambda o_=o_: hash(o_) * 0)
     # (the last one renders; rendering is left out of the aborted-use stage: the standard library's own repr machinery - the guard set
     # of dataclasses' generated __repr__ - is not abort-safe, and a '...' it then prints is no fault of the code under observation)
     qs.append(lambda: len(str(chart)) + len(repr(chart.sync_track)) + sum(len(str(tr_)) for m_ in chart.instrument_tracks.values() for tr_ in m_.values()))
@@ -511,6 +514,23 @@ def extra_stages(rec, case, chart, twin, before, rng) -> bool:
                 return False
             if not settle("read_only_uses_aborted_by_an_asynchronous_exception"):
                 return False
+        # events of two charts handled together: the chart's and its twin's events in one set / one dict / one sorted list behave as
+        # equal values do (eq implies equal hashes; a dict keyed by the chart's events finds the twin's; sorting by tick is stable)
+        ev_c, ev_t = all_events(chart), all_events(twin)
+        rec.ev()
+        try:
+            ok_sets = len(ev_c) == len(ev_t) and all(a == b and hash(a) == hash(b) for a, b in zip(ev_c, ev_t)) and \
+                len(set(ev_c) | set(ev_t)) == len(set(ev_c)) and all({a: k for k, a in enumerate(ev_c)}.get(b) is not None for b in ev_t[:50])
+            both = sorted(ev_c[:60] + ev_t[:60], key=lambda e: e.tick)
+            ok_sets = ok_sets and all(both[k].tick <= both[k + 1].tick for k in range(len(both) - 1))
+        except Exception as e:  # noqa
+            ok_sets = f"raised {harness.exc_str(e)}"
+        if ok_sets is not True:
+            rec.violation("mutation", "the events of a chart and of its identically parsed twin, put in one set / dict / sorted list, do not behave as equal values "
+                          f"({ok_sets if isinstance(ok_sets, str) else 'equal events with different hashes, or a lookup that misses'})", rc, "twin-events-not-interchangeable")
+            return False
+        if not settle("events_of_chart_and_twin_in_one_set_and_dict"):
+            return False
         import inspect
 
         objs = [chart, chart.metadata, chart.sync_track, chart.sync_track.bpm_events, chart.global_events_track]
